@@ -6,7 +6,7 @@
 // History shape (DESIGN 2.6-2, every model of the formula is a real single-threaded history of two local handles):
 //     push(l0)^a ; pop(l1) ; push(l0)^b ; pop(l1) ; push(l0)^c ; pop(l0)^d ; pop(l0)
 // with symbolic counts, one symbolic priority, local capacity 2. `pop(l1)` on an empty l1 steals from l0.
-// C04: every operation returns (the unwinding assertions ARE the property here: unwind 6 is above every loop bound the
+// C04: every operation returns (the unwinding assertions ARE the property here: unwind 4 is above every loop bound the
 //      code has when its counters are right: <= 2 local queues, <= 1 key, <= capacity/2 + 1 half-move rounds).
 // C06: an idle local queue (l0 empty) whose sibling or the shared queue holds work does not report empty.
 // C03 (sequential part): nothing is lost or duplicated - items still queued + items popped == items pushed.
@@ -34,34 +34,35 @@ fn history(a: usize, b: usize, c: usize, with_final_pops: bool) {
     kani::assume(d <= CAP);
     let mut pushed = 0usize;
     let mut popped = 0usize;
-    let mut phase = 0;
-    while phase < 5 {
-        if phase == 1 || phase == 3 {
-            if l1.pop().is_some() {
-                popped += 1;
-            }
-        } else {
-            let cnt = if phase == 0 { a } else if phase == 2 { b } else { c };
-            let mut k = 0;
-            while k < CAP {
-                if k < cnt {
-                    l0.push_with_priority(prio, pushed as u8);
-                    pushed += 1;
-                }
-                k += 1;
-            }
+    // (phases written out, no harness loop: these harnesses run at unwind 4, which every loop of the code under test respects
+    // when its counters are right - <= 2 local queues, <= 1 key, <= capacity/2 + 1 half-move rounds)
+    let mut push_n = |n: usize, pushed: &mut usize| {
+        if n >= 1 {
+            l0.push_with_priority(prio, *pushed as u8);
+            *pushed += 1;
         }
-        phase += 1;
+        if n >= 2 {
+            l0.push_with_priority(prio, *pushed as u8);
+            *pushed += 1;
+        }
+    };
+    push_n(a, &mut pushed);
+    if l1.pop().is_some() {
+        popped += 1;
     }
+    push_n(b, &mut pushed);
+    if l1.pop().is_some() {
+        popped += 1;
+    }
+    push_n(c, &mut pushed);
     let held = || occ(l0.queue) + occ(l1.queue) + q.len();
     kani::assert(held() + popped == pushed, "no item is lost or duplicated: queued + popped == pushed");
     if with_final_pops {
-        let mut k = 0;
-        while k < CAP {
-            if k < d && l0.pop().is_some() {
-                popped += 1;
-            }
-            k += 1;
+        if d >= 1 && l0.pop().is_some() {
+            popped += 1;
+        }
+        if d >= 2 && l0.pop().is_some() {
+            popped += 1;
         }
         let before = held();
         let got = l0.pop();
@@ -82,13 +83,13 @@ macro_rules! ows_case {
     ($c04:ident, $c06:ident, $a:expr, $b:expr, $c:expr) => {
         /// C04: every operation of the history returns.
         #[kani::proof]
-        #[kani::unwind(6)]
+        #[kani::unwind(4)]
         fn $c04() {
             history($a, $b, $c, false);
         }
         /// C06 + C03: the victim of a steal, once idle, still finds the work that is waiting elsewhere; nothing is lost.
         #[kani::proof]
-        #[kani::unwind(6)]
+        #[kani::unwind(4)]
         fn $c06() {
             history($a, $b, $c, true);
         }
